@@ -608,6 +608,11 @@ func (s *Schema) UnmarshalJSON(data []byte) error {
 		return err
 	}
 
+	if props.Items != nil && props.Items.Schema == nil && props.Items.Schemas == nil {
+		// "items" that is neither a schema nor a list of schemas holds nothing
+		props.Items = nil
+	}
+
 	sch := Schema{
 		SchemaProps:        props.SchemaProps,
 		SwaggerSchemaProps: props.SwaggerSchemaProps,
